@@ -294,21 +294,13 @@ Definition op_ok (nenv : nat) (o : op) : bool :=
   end.
 (* the first operation is an add call (before it there is no index file to open or to ask) *)
 Definition starts_with_add (ops : list op) : bool := match ops with OAdd _ _ :: _ => true | _ => false end.
-(* PENDING FIX dbreadonly: FastaIndex._read_header opens the dbm read-only, so a reopened dbm index cannot be extended
-   (OSError / dbm.error, depending on the dbm implementation); such histories are outside the domain in dbm mode *)
-Fixpoint no_add_after_reopen (seen : bool) (ops : list op) : bool :=
-  match ops with
-  | [] => true
-  | OAdd _ _ :: r => negb seen && no_add_after_reopen seen r
-  | OReopen :: r => no_add_after_reopen true r
-  | _ :: r => no_add_after_reopen seen r
-  end.
+(* F51 (fixed in /repo, d6a9af0): a dbm index that is opened again is opened read-write, so add() after reopening is inside
+   the domain in both modes *)
 Definition wf_hist_C09 (mode : N) (env : list (str * finput)) (ops : list op) : bool :=
   N.ltb mode 2 && negb (match env with [] => true | _ => false end)
   && forallb (fun nf => name_ok (fst nf) && wf_file mode (snd nf)) env
   && nodup_str (map fst env) && nodup_str (concat (map (fun nf => ids_of (snd nf)) env))
-  && starts_with_add ops && forallb (op_ok (length env)) ops
-  && (N.eqb mode MODE_BINARY || no_add_after_reopen false ops).
+  && starts_with_add ops && forallb (op_ok (length env)) ops.
 Definition run_C09_hist (mode : N) (hs path : str) (env : list (str * finput)) (ops : list op) : val :=
   let benv := map (fun nf => (fst nf, file_bytes (snd nf))) env in
   VL [VB (wf_hist_C09 mode env ops); VL (snd (run_ops mode hs benv (init_state path) ops))].
@@ -335,3 +327,50 @@ Definition run_C09_store (hdr : str) (data : list entry) (keys : list str) : val
                                 | Some b => let '(a, l, s) := unpack b in VL [VS b; VI (Z.of_N a); VI (Z.of_N l); VI (Z.of_N s)]
                                 end) data)]
       end].
+
+(* ------------------------------------------------------------------ FastaIndex._search on its argument forms, :277-296 *)
+(* seqids is a str, an (id, start, stop) triple, or a list of such items; iter / iter_fasta / iter_fastaheader yield one
+   answer per item, in order; the first failing item ends the call with its exception *)
+Inductive qitem := QId (id : str) | QTriple (id : str) (i j : option Z).
+Definition item_query (api : N) (it : qitem) : query :=
+  match it with QId id => Query api id None | QTriple id i j => Query api id (Some (i, j)) end.
+(* :279-281 "len(seqids) == 3 and not isinstance(seqids[1], (bytes, str))": a LIST of exactly three items whose second is a
+   triple is taken for one (id, start, stop) query itself; start is then a tuple and the call ends in TypeError *)
+Definition quirk (items : list qitem) : bool := match items with [_; QTriple _ _ _; _] => true | _ => false end.
+Fixpoint collect (vs : list val) (acc : list val) : val :=
+  match vs with
+  | [] => VL (rev acc)
+  | VE k :: _ => VE k
+  | v :: r => collect r (v :: acc)
+  end.
+(* the quirk: the first item is looked up (a failing lookup ends the call); then the header-only form returns its header line
+   without looking at the range (:94-95), the other forms compare the tuple with 0 (:113): TypeError *)
+Definition iter_answers (mode : N) (hs : str) (env : fenv) (s : istate) (api : N) (items : list qitem) : val :=
+  if quirk items then
+    match items with
+    | QId id :: _ =>
+        match snd (step mode hs env s (OGet (Query api id None))) with
+        | VE k => VE k
+        | v => if N.eqb api 2 then VL [v] else VE (bs "TypeError"%bs)
+        end
+    | _ => VE (bs "TypeError"%bs)
+    end
+  else collect (map (fun it => snd (step mode hs env s (OGet (item_query api it)))) items) [].
+Inductive xop := XOp (o : op) | XIter (api : N) (items : list qitem).
+Fixpoint run_xops (mode : N) (hs : str) (env : fenv) (s : istate) (ops : list xop) : istate * list val :=
+  match ops with
+  | [] => (s, [])
+  | XOp o :: r => let '(s1, v) := step mode hs env s o in
+                  let '(s2, vs) := run_xops mode hs env s1 r in (s2, v :: vs)
+  | XIter api items :: r => let '(s2, vs) := run_xops mode hs env s r in (s2, iter_answers mode hs env s api items :: vs)
+  end.
+Definition xop_ok (nenv : nat) (x : xop) : bool :=
+  match x with
+  | XOp o => op_ok nenv o
+  | XIter api items => N.ltb api 3 && negb (quirk items) && forallb (fun it => wf_query (item_query api it)) items
+  end.
+Definition plain (ops : list xop) : list op := flat_map (fun x => match x with XOp o => [o] | XIter _ _ => [] end) ops.
+Definition run_C09_xhist (mode : N) (hs path : str) (env : list (str * finput)) (ops : list xop) : val :=
+  let benv := map (fun nf => (fst nf, file_bytes (snd nf))) env in
+  VL [VB (wf_hist_C09 mode env (plain ops) && forallb (xop_ok (length env)) ops);
+      VL (snd (run_xops mode hs benv (init_state path) ops))].
